@@ -589,3 +589,254 @@ Section rule.
       destruct (vlookup z (labs (tree st))); [discriminate | reflexivity].
   Qed.
 End rule.
+
+(* ------------------------------------------------------------------------------------------------ facets *)
+Lemma facets_length : forall s phi, In phi (facets s) -> S (length phi) = length s.
+Proof.
+  induction s as [|x r IH]; intros phi H; [destruct H|]. cbn [facets] in H. destruct H as [<-|H]; [reflexivity|].
+  apply in_map_iff in H as (t & <- & Ht). cbn [length]. f_equal. apply IH; exact Ht.
+Qed.
+Lemma facets_in : forall s phi b, In phi (facets s) -> In b phi -> In b s.
+Proof.
+  induction s as [|x r IH]; intros phi b H Hb; [destruct H|]. cbn [facets] in H. destruct H as [<-|H]; [right; exact Hb|].
+  apply in_map_iff in H as (t & <- & Ht). destruct Hb as [<-|Hb]; [left; reflexivity | right; eapply IH; eauto].
+Qed.
+Lemma facets_snoc_in : forall sigma tau y, In tau (facets sigma) -> In (tau ++ [y]) (facets (sigma ++ [y])).
+Proof.
+  induction sigma as [|a s' IH]; intros tau y H; [destruct H|]. cbn [facets app] in *. destruct H as [<-|H]; [left; reflexivity|].
+  apply in_map_iff in H as (t & <- & Ht). right. change ((a :: t) ++ [y]) with (a :: (t ++ [y])). apply in_map. apply IH; exact Ht.
+Qed.
+Lemma facets_nonnil x r : facets (x :: r) <> [].
+Proof. cbn. discriminate. Qed.
+Lemma facet_containing : forall sigma b, (2 <= length sigma)%nat -> In b sigma -> exists tau, In tau (facets sigma) /\ In b tau.
+Proof.
+  intros [|a [|a2 s']] b Hl Hb; cbn [length] in Hl; try lia. destruct Hb as [<-|Hb].
+  - exists (a :: s'). split; [cbn [facets]; right; apply in_map; left; reflexivity | left; reflexivity].
+  - exists (a2 :: s'). split; [left; reflexivity | exact Hb].
+Qed.
+Lemma lbound_sub x r phi : lbound x r = true -> (forall b, In b phi -> In b r) -> lbound x phi = true.
+Proof.
+  intros H Hs. induction phi as [|b phi IH]; [reflexivity|]. cbn [lbound]. rewrite IH by (intros; apply Hs; right; auto).
+  pose proof (lbound_in x r b H (Hs b (or_introl eq_refl))). rewrite andb_true_r. lia.
+Qed.
+Lemma ssortedb_facet : forall s phi, ssortedb s = true -> In phi (facets s) -> ssortedb phi = true.
+Proof.
+  induction s as [|x r IH]; intros phi Hs H; [destruct H|]. cbn [ssortedb] in Hs. apply andb_prop in Hs as [H1 H2].
+  cbn [facets] in H. destruct H as [<-|H]; [exact H2|]. apply in_map_iff in H as (t & <- & Ht). cbn [ssortedb].
+  rewrite (IH t H2 Ht), andb_true_r. apply (lbound_sub x r t H1). intros b Hb. eapply facets_in; eauto.
+Qed.
+Lemma cliqueb_facet G : forall s phi, cliqueb G s = true -> In phi (facets s) -> cliqueb G phi = true.
+Proof.
+  induction s as [|x r IH]; intros phi Hs H; [destruct H|]. cbn [cliqueb] in Hs. apply andb_prop in Hs as [H1 H3]. apply andb_prop in H1 as [H1 H2].
+  cbn [facets] in H. destruct H as [<-|H]; [exact H3|]. apply in_map_iff in H as (t & <- & Ht). cbn [cliqueb].
+  rewrite H1, (IH t H3 Ht), andb_true_r. cbn [andb]. rewrite forallb_forall in *. intros b Hb. apply H2. eapply facets_in; eauto.
+Qed.
+Lemma flag_facet G d s phi : flag G d s <> None -> In phi (facets s) -> phi <> [] -> flag G d phi <> None.
+Proof.
+  unfold flag. intros H Hin Hn. destruct (ssortedb s) eqn:E1; [|cbn in H; congruence]. cbn [andb] in H.
+  destruct (negb (is_nil s)) eqn:E0; [|cbn in H; congruence]. cbn [andb] in H.
+  destruct (cliqueb G s) eqn:E2; [|cbn in H; congruence]. cbn [andb] in H.
+  destruct (lenZ s <=? d + 1) eqn:E3; [|cbn in H; congruence].
+  rewrite (ssortedb_facet s phi E1 Hin), (cliqueb_facet G s phi E2 Hin). destruct phi; [congruence|]. cbn [is_nil negb andb].
+  pose proof (facets_length s _ Hin). unfold lenZ in *. destruct (Z.leb_spec (Z.of_nat (length (z :: phi))) (d + 1)); [discriminate | lia].
+Qed.
+
+(* ------------------------------------------------------------------------------------------------ the blocked flag complex *)
+Lemma forallb_ext_in {A} (f g : A -> bool) l : (forall x, In x l -> f x = g x) -> forallb f l = forallb g l.
+Proof. induction l as [|x l IH]; intro H; [reflexivity|]. cbn [forallb]. rewrite (H x), IH; auto; [intros; apply H; right; auto | left; auto]. Qed.
+Lemma bflag_some G d P s : is_some (bflag G d P s) = keptb (S (length s)) G d P s.
+Proof. unfold bflag. destruct (keptb _ _ _ _ _); reflexivity. Qed.
+Lemma bflag_unfold G d P s :
+  bflag G d P s =
+  if is_some (flag G d s) && ((lenZ s <=? 2) || (negb (P s (fval G s)) && forallb (fun phi => is_some (bflag G d P phi)) (facets s)))
+  then Some (fval G s) else None.
+Proof.
+  unfold bflag at 1. cbn [keptb].
+  rewrite (forallb_ext_in (keptb (length s) G d P) (fun phi => is_some (bflag G d P phi)) (facets s)); [reflexivity|].
+  intros phi Hin. rewrite bflag_some, (facets_length s phi Hin). reflexivity.
+Qed.
+Lemma bflag_flag G d P s : bflag G d P s <> None -> flag G d s <> None.
+Proof. rewrite bflag_unfold. destruct (flag G d s); [discriminate|]. cbn. congruence. Qed.
+Lemma bflag_small G d P s : lenZ s <= 2 -> bflag G d P s = flag G d s.
+Proof.
+  intro H. rewrite bflag_unfold. destruct (Z.leb_spec (lenZ s) 2); [|lia]. cbn [orb]. rewrite andb_true_r.
+  unfold flag. destruct (_ && _ && _ && _); reflexivity.
+Qed.
+Lemma bflag_facet G d P s phi : bflag G d P s <> None -> In phi (facets s) -> phi <> [] -> bflag G d P phi <> None.
+Proof.
+  intros H Hin Hn. pose proof (bflag_flag G d P s H) as Hf. rewrite bflag_unfold in H.
+  destruct (is_some (flag G d s)) eqn:E; [|cbn in H; congruence]. cbn [andb] in H.
+  destruct (Z.leb_spec (lenZ s) 2) as [Hl|Hl].
+  - rewrite bflag_small; [apply (flag_facet G d s phi Hf Hin Hn)|]. pose proof (facets_length s phi Hin). unfold lenZ in *. lia.
+  - cbn [orb] in H. destruct (negb (P s (fval G s))); [|cbn in H; congruence]. cbn [andb] in H.
+    destruct (forallb _ (facets s)) eqn:Ef; [|congruence]. rewrite forallb_forall in Ef. specialize (Ef phi Hin).
+    destruct (bflag G d P phi); [discriminate | discriminate Ef].
+Qed.
+Lemma bflag_sorted G d P s : bflag G d P s <> None -> ssortedb s = true.
+Proof. intro H. apply bflag_flag in H. unfold flag in H. destruct (ssortedb s); [reflexivity | cbn in H; congruence]. Qed.
+Lemma bflag_prefix G d P sigma : sigma <> [] -> bflag G d P sigma = None -> forall q, bflag G d P (sigma ++ q) = None.
+Proof.
+  intros Hn H q. induction q as [|z q IH] using rev_ind; [rewrite app_nil_r; exact H|].
+  destruct (bflag G d P (sigma ++ q ++ [z])) eqn:E; [|reflexivity]. exfalso.
+  assert (bflag G d P (sigma ++ q) <> None); [|congruence].
+  apply (bflag_facet G d P ((sigma ++ q) ++ [z])); [rewrite <- app_assoc, E; discriminate | apply facets_last | destruct sigma; [congruence | discriminate]].
+Qed.
+
+(* ------------------------------------------------------------------------------------------------ values: the maximum by its upper bounds *)
+Lemma mval_le_iff vw e m : forall s, ssortedb s = true -> s <> [] ->
+  (mval vw e s <= m <-> (forall x, In x s -> vw x <= m) /\ (forall a b, In a s -> In b s -> a < b -> e a b <= m)).
+Proof.
+  induction s as [|x [|y t] IH]; intros Hs Hn; [congruence | |].
+  - rewrite mval_one. split.
+    + intro H. split; [intros z [<-|[]]; exact H | intros a b [<-|[]] [<-|[]] Hab; lia].
+    + intros [H _]. apply H. left; reflexivity.
+  - rewrite mval_cons2. cbn [ssortedb] in Hs. apply andb_prop in Hs as [H1 H2].
+    specialize (IH H2 ltac:(discriminate)). split.
+    + intro H. assert (fmx (e x) (vw x) (y :: t) <= m) as Hf by lia. assert (mval vw e (y :: t) <= m) as Hm by lia.
+      apply fmx_le_iff in Hf as [Hf1 Hf2]. apply IH in Hm as [Hm1 Hm2]. split.
+      * intros z [<-|Hz]; auto.
+      * intros a b Ha Hb Hab. destruct Ha as [<-|Ha].
+        -- destruct Hb as [<-|Hb]; [lia | apply Hf2; exact Hb].
+        -- destruct Hb as [<-|Hb]; [pose proof (lbound_in x _ a H1 Ha); lia | apply Hm2; auto].
+    + intros [Hv Hp]. assert (fmx (e x) (vw x) (y :: t) <= m) as Hf.
+      { apply fmx_le_iff. split; [apply Hv; left; reflexivity|]. intros u Hu. apply Hp; [left; reflexivity | right; exact Hu | eapply lbound_in; eauto]. }
+      assert (mval vw e (y :: t) <= m) as Hm.
+      { apply IH. split; [intros z Hz; apply Hv; right; exact Hz | intros a b Ha Hb Hab; apply Hp; auto; right; auto]. }
+      lia.
+Qed.
+Definition PM (G : graph) (s : simplex) (m : V) : Prop := forall a b, In a s -> In b s -> a < b -> ew G a b <= m.
+Lemma fval_le_iff G m s : ssortedb s = true -> (2 <= length s)%nat -> (fval G s <= m <-> PM G s m).
+Proof.
+  intros Hs Hl. destruct s as [|x [|y t]]; cbn [length] in Hl; try lia.
+  change (fval G (x :: y :: t)) with (mval (ew G x) (ew G) (y :: t)).
+  cbn [ssortedb] in Hs. apply andb_prop in Hs as [H1 H2].
+  rewrite (mval_le_iff (ew G x) (ew G) m (y :: t) H2) by discriminate. unfold PM. split.
+  - intros [Hv Hp] a b Ha Hb Hab. destruct Ha as [<-|Ha].
+    + destruct Hb as [<-|Hb]; [lia | apply Hv; exact Hb].
+    + destruct Hb as [<-|Hb]; [pose proof (lbound_in x _ a H1 Ha); lia | apply Hp; auto].
+  - intro H. split.
+    + intros u Hu. apply H; [left; reflexivity | right; exact Hu | eapply lbound_in; eauto].
+    + intros a b Ha Hb Hab. apply H; auto; right; auto.
+Qed.
+Lemma lbound_app x l1 l2 : lbound x (l1 ++ l2) = lbound x l1 && lbound x l2.
+Proof. induction l1 as [|a l1 IH]; [reflexivity|]. cbn [app lbound]. rewrite IH, andb_assoc. reflexivity. Qed.
+Lemma forallb_false_ex {A} (f : A -> bool) : forall l, forallb f l = false -> exists x, In x l /\ f x = false.
+Proof.
+  induction l as [|x l IH]; intro H; [discriminate|]. cbn [forallb] in H. destruct (f x) eqn:E.
+  - destruct (IH H) as (z & Hz & Hf). exists z. split; [right; exact Hz | exact Hf].
+  - exists x. split; [left; reflexivity | exact E].
+Qed.
+
+Section fold_char.
+  Variable B : simplex -> option V.
+  Variable y : Z.
+  Lemma candB_char : forall l a, (forall tau, In tau l -> B (tau ++ [y]) <> None) ->
+    exists f, fold_left (fun acc tau => match acc, B (tau ++ [y]) with Some m, Some g => Some (Z.max m g) | _, _ => None end) l (Some a) = Some f /\
+              forall m, f <= m <-> a <= m /\ forall tau v, In tau l -> B (tau ++ [y]) = Some v -> v <= m.
+  Proof.
+    induction l as [|t l IH]; intros a H.
+    - exists a. split; [reflexivity|]. intro m. split; [intro; split; [assumption | intros tau v []] | tauto].
+    - cbn [fold_left]. destruct (B (t ++ [y])) as [v|] eqn:E; [|exfalso; apply (H t (or_introl eq_refl)); exact E].
+      destruct (IH (Z.max a v)) as (f & Hf & Hc); [intros tau Hin; apply H; right; exact Hin|].
+      exists f. split; [exact Hf|]. intro m. rewrite Hc. split.
+      + intros [H1 H2]. split; [lia|]. intros tau v' [<-|Hin] Hv; [rewrite E in Hv; inversion Hv; lia | eapply H2; eauto].
+      + intros [H1 H2]. split; [pose proof (H2 t v (or_introl eq_refl) E); lia | intros tau v' Hin Hv; eapply H2; eauto; right; exact Hin].
+  Qed.
+End fold_char.
+
+(* ------------------------------------------------------------------------------------------------ bflag obeys the rule *)
+Lemma flag_parts G d s : flag G d s <> None -> ssortedb s = true /\ cliqueb G s = true /\ lenZ s <= d + 1 /\ s <> [].
+Proof.
+  unfold flag. intro H. destruct (ssortedb s); [|cbn in H; congruence]. destruct s as [|x r]; [cbn in H; congruence|].
+  cbn [is_nil negb andb] in H. destruct (cliqueb G (x :: r)); [|cbn in H; congruence]. cbn [andb] in H.
+  destruct (Z.leb_spec (lenZ (x :: r)) (d + 1)); [|congruence]. repeat split; auto. discriminate.
+Qed.
+Lemma flag_from_facets G d sigma y : (2 <= length sigma)%nat -> flag G d sigma <> None ->
+  (forall tau, In tau (facets sigma) -> flag G d (tau ++ [y]) <> None) ->
+  ssortedb (sigma ++ [y]) = true /\ cliqueb G (sigma ++ [y]) = true.
+Proof.
+  intros Hl Hs Hf. destruct sigma as [|a [|a2 s2]]; cbn [length] in Hl; try lia.
+  destruct (flag_parts G d _ Hs) as (S1 & C1 & _ & _).
+  destruct (flag_parts G d _ (Hf (a2 :: s2) (or_introl eq_refl))) as (S2 & C2 & _ & _).
+  assert (In (a :: s2) (facets (a :: a2 :: s2))) as Hin by (cbn [facets]; right; apply in_map; left; reflexivity).
+  destruct (flag_parts G d _ (Hf (a :: s2) Hin)) as (S3 & C3 & _ & _).
+  cbn [app] in *. cbn [ssortedb] in S1, S3 |- *. cbn [cliqueb] in C1, C3 |- *.
+  apply andb_prop in S1 as [S1a S1b]. apply andb_prop in S3 as [S3a S3b].
+  apply andb_prop in C1 as [C1a C1c]. apply andb_prop in C1a as [C1a C1b].
+  apply andb_prop in C3 as [C3a C3c]. apply andb_prop in C3a as [C3a C3b].
+  assert (a < y) as Hay by (eapply lbound_in; [exact S3a | apply in_or_app; right; left; reflexivity]).
+  assert (adj G a y = true) as Aay.
+  { rewrite forallb_forall in C3b. apply C3b. apply in_or_app; right; left; reflexivity. }
+  split.
+  - change (a2 :: s2 ++ [y]) with ((a2 :: s2) ++ [y]). rewrite lbound_app, S1a. cbn [lbound andb].
+    change ((a2 :: s2) ++ [y]) with (a2 :: s2 ++ [y]). cbn [ssortedb] in S2. rewrite S2. rewrite !andb_true_r. lia.
+  - rewrite C1a. cbn [andb]. change (a2 :: s2 ++ [y]) with ((a2 :: s2) ++ [y]). rewrite forallb_app, C1b. cbn [forallb andb].
+    rewrite Aay. cbn [andb]. change ((a2 :: s2) ++ [y]) with (a2 :: s2 ++ [y]). cbn [cliqueb] in C2. exact C2.
+Qed.
+Lemma bflag_value G d P s w : bflag G d P s = Some w -> w = fval G s.
+Proof. unfold bflag. destruct (keptb _ _ _ _ _); intro H; inversion H; reflexivity. Qed.
+
+Theorem bflag_rule G d P sigma w y : bflag G d P sigma = Some w -> (2 <= length sigma)%nat ->
+  bflag G d P (sigma ++ [y]) =
+  if lenZ sigma + 1 <=? d + 1
+  then match candB (bflag G d P) sigma w y with
+       | Some f => if P (sigma ++ [y]) f then None else Some f
+       | None => None end
+  else None.
+Proof.
+  intros Hw Hl. set (rho := sigma ++ [y]).
+  assert (bflag G d P sigma <> None) as Hs by (rewrite Hw; discriminate).
+  destruct (forallb (fun tau => is_some (bflag G d P (tau ++ [y]))) (facets sigma)) eqn:Ef.
+  - rewrite forallb_forall in Ef.
+    assert (forall tau, In tau (facets sigma) -> bflag G d P (tau ++ [y]) <> None) as Hall.
+    { intros tau Hin. specialize (Ef tau Hin). destruct (bflag G d P (tau ++ [y])); [discriminate | discriminate Ef]. }
+    destruct (candB_char (bflag G d P) y (facets sigma) w Hall) as (f & Hf & Hc). assert (candB (bflag G d P) sigma w y = Some f) as Hf' by exact Hf. rewrite Hf'.
+    destruct (flag_from_facets G d sigma y Hl (bflag_flag G d P sigma Hs)) as [Sr Cr].
+    { intros tau Hin. apply (bflag_flag G d P). apply Hall; exact Hin. }
+    fold rho in Sr, Cr.
+    assert (lenZ rho = lenZ sigma + 1) as Lr by (unfold rho; apply lenZ_snoc).
+    assert (flag G d rho = if lenZ sigma + 1 <=? d + 1 then Some (fval G rho) else None) as Fr.
+    { unfold flag. rewrite Sr, Cr, Lr. unfold rho. destruct sigma; reflexivity. }
+    rewrite bflag_unfold, Fr. destruct (lenZ sigma + 1 <=? d + 1) eqn:El; [|reflexivity]. cbn [is_some andb].
+    assert (2 <= lenZ sigma) as L2 by (unfold lenZ; lia).
+    destruct (Z.leb_spec (lenZ rho) 2); [lia|]. cbn [orb].
+    assert (forallb (fun phi => is_some (bflag G d P phi)) (facets rho) = true) as ->.
+    { apply forallb_forall. intros phi Hin. unfold rho in Hin. apply facets_snoc in Hin as [->|(t' & Ht' & ->)].
+      - rewrite Hw. reflexivity.
+      - destruct (bflag G d P (t' ++ [y])) eqn:E; [reflexivity | exfalso; apply (Hall t' Ht'); exact E]. }
+    rewrite andb_true_r.
+    assert (fval G rho = f) as ->.
+    { assert (forall m, fval G rho <= m <-> f <= m) as Hm.
+      { intro m. rewrite (fval_le_iff G m rho Sr) by (unfold rho; rewrite app_length; cbn [length]; lia). rewrite Hc.
+        rewrite (bflag_value G d P sigma w Hw).
+        rewrite (fval_le_iff G m sigma (bflag_sorted G d P sigma Hs) Hl).
+        pose proof (ssortedb_snoc_above sigma y Sr) as Ay. split.
+        - intro HH. split.
+          + intros a b Ha Hb Hab. apply HH; auto; unfold rho; apply in_or_app; left; auto.
+          + intros tau v Hin Hv. rewrite (bflag_value G d P _ v Hv).
+            apply fval_le_iff; [apply (bflag_sorted G d P); rewrite Hv; discriminate | |].
+            * rewrite app_length. cbn [length]. pose proof (facets_length sigma tau Hin). lia.
+            * intros a b Ha Hb Hab. apply HH; auto; unfold rho; apply in_app_or in Ha; apply in_app_or in Hb; apply in_or_app.
+              -- destruct Ha as [Ha|Ha]; [left; eapply facets_in; eauto | right; exact Ha].
+              -- destruct Hb as [Hb|Hb]; [left; eapply facets_in; eauto | right; exact Hb].
+        - intros [H1 H2] a b Ha Hb Hab. unfold rho in Ha, Hb. apply in_app_or in Ha. apply in_app_or in Hb.
+          destruct Ha as [Ha|[<-|[]]]; destruct Hb as [Hb|[<-|[]]].
+          + apply H1; auto.
+          + destruct (facet_containing sigma a Hl Ha) as (tau & Hin & Hat).
+            destruct (bflag G d P (tau ++ [y])) as [v|] eqn:Ev; [|exfalso; apply (Hall tau Hin); exact Ev].
+            pose proof (H2 tau v Hin Ev) as Hv. rewrite (bflag_value G d P _ v Ev) in Hv.
+            apply fval_le_iff in Hv; [| apply (bflag_sorted G d P); rewrite Ev; discriminate |].
+            * apply Hv; auto; apply in_or_app; [left; exact Hat | right; left; reflexivity].
+            * rewrite app_length. cbn [length]. pose proof (facets_length sigma tau Hin). lia.
+          + pose proof (Ay b Hb). lia.
+          + lia. }
+      assert (fval G rho <= f) by (apply Hm; lia). assert (f <= fval G rho) by (apply Hm; lia). lia. }
+    destruct (P rho f); reflexivity.
+  - apply forallb_false_ex in Ef as (tau & Hin & Hn).
+    assert (bflag G d P (tau ++ [y]) = None) as Hn' by (destruct (bflag G d P (tau ++ [y])); [discriminate | reflexivity]).
+    rewrite (candB_none (bflag G d P) sigma w y tau Hin Hn').
+    assert (bflag G d P rho = None) as ->; [|destruct (_ <=? _); reflexivity].
+    destruct (bflag G d P rho) eqn:E; [|reflexivity]. exfalso.
+    assert (bflag G d P (tau ++ [y]) <> None); [|congruence].
+    apply (bflag_facet G d P rho); [rewrite E; discriminate | apply facets_snoc_in; exact Hin | destruct tau; discriminate].
+Qed.
